@@ -30,6 +30,8 @@ struct Pump {
     bus_saw: Vec<RefMsg>,
     bus_replied: Option<Option<RefMsg>>,
     written: Vec<u8>,
+    /// bytes of the sender's line still unread after the pump (the bridge must consume exactly the line)
+    leftover: usize,
 }
 
 struct Rig {
@@ -68,7 +70,8 @@ fn pump(odk: &Rc<RefCell<TheOdk>>, vbus: &VBus, c2o: &Rc<RefCell<VecDeque<u8>>>,
     let saw: Vec<RefMsg> = vb.log[log_before..].iter().map(|e| e.msg.clone()).collect();
     let replied = vb.log[log_before..].last().map(|e| e.reply.clone().unwrap_or(None));
     let written = odk_port.borrow().written[written_before..].to_vec();
-    pumps.borrow_mut().push(Pump { line, result, bus_saw: saw, bus_replied: replied, written });
+    let leftover = c2o.borrow().len();
+    pumps.borrow_mut().push(Pump { line, result, bus_saw: saw, bus_replied: replied, written, leftover });
 }
 
 fn build(addrs: &[u16], autos: &[bool]) -> Rig {
@@ -109,6 +112,10 @@ fn check_pumps(pumps: &[Pump], rep: &mut Report, ctx_desc: &str) {
                 ]),
             );
         };
+        if p.leftover > 0 && p.line.ends_with(b"\n") {
+            fail(rep, "line_not_consumed_exactly", format!("{} byte(s) of the stream were left unread behind a {}-byte line (the bridge is out of step from here on)", p.leftover, p.line.len()));
+            continue;
+        }
         match refs::dec(&p.line) {
             Dec::Ok { addr, ty, data } => {
                 let want = refs::classify(addr, ty, &data);
@@ -156,6 +163,7 @@ fn observe_all(b: &VirtualSignBus<'static>, n: usize) -> Vec<Obs> {
 enum Act {
     Call(usize, Op, usize),  // (which controller, op, number of pages)
     Reconfigure(usize, usize), // (which controller, new type): a new Sign object with another type configures
+    Raw(RefMsg),               // a message given straight to the bus (serial bus on one path, virtual bus on the other)
 }
 
 fn mk_pages(ty: usize, rng: &mut Rng, n: usize) -> Vec<Page<'static>> {
@@ -199,6 +207,14 @@ fn scenario(ctx: &Ctx, idx: u64, rep: &mut Report) {
             8 => Act::Call(who, Op::LoadNext, 0),
             9 => Act::Call(who, Op::ShutDown, 0),
             10 => Act::Reconfigure(who, [5usize, 3, 4, 10][rng.usize(4)]),
+            11 if rng.bool() => {
+                let n = *rng.pick(&[0usize, 1, 16, 254, 255]);
+                Act::Raw(match rng.below(3) {
+                    0 => RefMsg::Data { offset: rng.edgy_u16(), data: rng.bytes(n) },
+                    1 => RefMsg::Unknown { addr: addrs[who], ty: 0x7E, data: rng.bytes(n) },
+                    _ => RefMsg::Count(rng.edgy_u16()),
+                })
+            }
             _ => Act::Call(who, Op::SendPages, 1),
         });
     }
@@ -209,6 +225,25 @@ fn scenario(ctx: &Ctx, idx: u64, rep: &mut Report) {
     rep.case(Some(fnv(format!("{:?}{:?}{:?}{:?}", addrs, autos, types, acts).as_bytes())));
     let mut steps: Vec<String> = vec![];
     for act in &acts {
+        if let Act::Raw(m) = act {
+            use flipdot::SignBus;
+            rep.count("raw_messages_on_both_paths");
+            let a = catch(|| rig.serial.borrow_mut().process_message(refs::from_ref(m)).map(|r| r.map(|x| refs::to_ref(&x))).map_err(|e| e.to_string()));
+            let b = catch(|| direct.borrow_mut().process_message(refs::from_ref(m)).map(|r| r.map(|x| refs::to_ref(&x))).map_err(|e| e.to_string()));
+            steps.push(format!("raw {}: wire {:?} / direct {:?}", m.show().chars().take(40).collect::<String>(), a.as_ref().map_err(|p| p.msg.clone()), b.as_ref().map_err(|p| p.msg.clone())));
+            let same = match (&a, &b) {
+                (Ok(x), Ok(y)) => x == y,
+                _ => false,
+            };
+            let oa = observe_all(&rig.vbus.borrow().inner, n_signs);
+            let ob = observe_all(&direct.borrow(), n_signs);
+            if !same || oa != ob {
+                let what = if !same { "a message given to the bus is answered differently over the wire".to_string() } else { "sign state differs after a raw message".to_string() };
+                rep.violation(MON_T, "raw_message_differs", &format!("{:?}|{}", addrs, steps.join(";")), format!("signs {:?}: {} — steps [{}]", addrs, what, steps.join("; ")), J::obj(vec![("steps", J::Arr(steps.iter().map(|s| J::s(s.clone())).collect())), ("scenario_index", J::Int(idx as i128))]));
+                break;
+            }
+            continue;
+        }
         let (who, op, np) = match act {
             Act::Call(w, op, np) => (*w, op.clone(), *np),
             Act::Reconfigure(w, t) => {
@@ -216,6 +251,7 @@ fn scenario(ctx: &Ctx, idx: u64, rep: &mut Report) {
                 rep.count("reconfigured_as_another_type");
                 (*w, Op::Configure, 0)
             }
+            Act::Raw(_) => unreachable!(),
         };
         let ty = types[who];
         rep.seen("types_used", ty as u64);
@@ -301,6 +337,13 @@ fn raw_injection(rep: &mut Report) {
     }
     for s in 0..N_STATES {
         lines.push(refs::wire(&RefMsg::Report(3, s)));
+    }
+    // the longest lines the format allows, each followed by an ordinary frame (the bridge must stay in step)
+    for n in [253usize, 254, 255] {
+        lines.push(refs::wire(&RefMsg::Unknown { addr: 3, ty: 0x7E, data: vec![0x5A; n] }));
+        lines.push(refs::wire(&RefMsg::Hello(3)));
+        lines.push(refs::wire(&RefMsg::Data { offset: 0x0100, data: vec![0xA5; n] }));
+        lines.push(refs::wire(&RefMsg::Query(0x80)));
     }
     for o in 0..N_OPS {
         lines.push(refs::wire(&RefMsg::Request(0x80, o)));
